@@ -25,7 +25,9 @@ pub fn run(ctx: &RunCtx) -> i32 {
         "C10" => c10::run(ctx),
         "C11" => crate::e3::c11::run(ctx),
         "C12" => crate::e3::c12::run(ctx),
+        "C13" => crate::e3::c13::run(ctx),
         "C14" => c14::run(ctx),
+        "C15" => crate::e3::c15::run(ctx),
         "C16" => c16::run(ctx),
         "C17" => crate::e3::c17::run(ctx),
         "C18" => c18::run(ctx),
